@@ -120,7 +120,9 @@ func (c *FileCache) Close(file *os.File) error {
 		return nil
 	}
 
-	if elem, ok := c.cache[name]; ok {
+	// Only adjust the cached entry if it holds this File. A different File
+	// with the same name may have been opened while the cache was disabled.
+	if elem, ok := c.cache[name]; ok && elem.Value.(*entry).file == file {
 		ent := elem.Value.(*entry)
 		if ent.refs == 0 {
 			return &os.PathError{Op: "close", Path: name, Err: os.ErrClosed}
